@@ -12,6 +12,7 @@ import (
 	"encoding/hex"
 	"encoding/json"
 	"fmt"
+	"math/big"
 
 	"github.com/cloudflare/circl/oprf"
 	"github.com/cloudflare/pat-go/tokens"
@@ -36,9 +37,15 @@ const (
 	t2Bad // type 2, key A, blinded message >= modulus
 	t1C   // type 1, issuer key C: its truncated key id EQUALS that of the type-2 key A (legal: the types differ)
 	nLetters
+	// type-2 keys D and E share their truncated key id (N_D < N_E). Not part of the sequence alphabet;
+	// used with the configurations that hold both issuers.
+	t2D      = nLetters     // request for key D
+	t2Esmall = nLetters + 1 // request for key E whose blinded message is below N_D: issuer D can sign it too
+	t2Ebig   = nLetters + 2 // request for key E whose blinded message is not below N_D: only issuer E can
 )
 
-var letterName = []string{"t1/keyA", "t1/keyB", "t1/unknown-key-id", "t1/malformed-element", "t2/keyA", "t2/keyB", "t2/unknown-key-id", "t2/malformed-element", "t1/keyC(same truncated id as t2/keyA)"}
+var letterName = []string{"t1/keyA", "t1/keyB", "t1/unknown-key-id", "t1/malformed-element", "t2/keyA", "t2/keyB", "t2/unknown-key-id", "t2/malformed-element", "t1/keyC(same truncated id as t2/keyA)",
+	"t2/keyD", "t2/keyE(blinded message below N_D)", "t2/keyE(blinded message not below N_D)"}
 
 // issuer configurations: which issuers are handed to NewBasicBatchedIssuer, in order
 var configs = [][]string{
@@ -57,7 +64,7 @@ var configs = [][]string{
 // nBase hand-picked configurations come first; behind them init() appends every ordered
 // arrangement of every subset of {1A,1B,1C,2A,2B} (the issuer list is variadic: its order and
 // interleaving of types is the operator's choice) and the configurations with a rotating issuer.
-var nBase, nArr int
+var nBase, nColl, nArr int
 
 func init() {
 	nBase = len(configs)
@@ -72,6 +79,8 @@ func init() {
 		}
 	}
 	rec(nil, 0)
+	nColl = len(configs)
+	configs = append(configs, []string{"2D", "2E"}, []string{"2E", "2D"}, []string{"2E"}, []string{"2D"}, []string{"1A", "2D", "2A", "2E"}, []string{"2E", "1C", "2D"})
 	nArr = len(configs)
 	// "1R": one type-1 issuer OBJECT whose key is A during the previous batch and B from then on
 	configs = append(configs, []string{"1R", "2A"}, []string{"2A", "1R"}, []string{"1R"}, []string{"1C", "1R", "2B"})
@@ -90,8 +99,8 @@ func (x rotIssuer) pick() bx.Issuer1 {
 	return x.b
 }
 func (x rotIssuer) Evaluate(req tokens.TokenRequest) ([]byte, error) { return x.pick().Evaluate(req) }
-func (x rotIssuer) TokenKeyID() []byte                                { return x.pick().TokenKeyID() }
-func (x rotIssuer) Type() uint16                                      { return 1 }
+func (x rotIssuer) TokenKeyID() []byte                               { return x.pick().TokenKeyID() }
+func (x rotIssuer) Type() uint16                                     { return 1 }
 
 type Case struct {
 	Config  int   `json:"config"`
@@ -101,7 +110,7 @@ type Case struct {
 
 type worldT struct {
 	w1 [3]*px.W1 // A, B, C (C collides with the type-2 key A on the truncated id)
-	w2 [2]*px.W2
+	w2 [4]*px.W2 // A, B, and D, E whose truncated key ids coincide
 }
 
 var keyCIndex = -1 // index into the OPRF key alphabet, found once
@@ -113,6 +122,8 @@ func buildWorld() *worldT {
 	// choose OPRF keys whose truncated ids differ from each other and from the "unknown" id
 	w.w1[0], w.w1[1] = px.NewW1(0), px.NewW1(1)
 	w.w2[0], w.w2[1] = px.NewW2(0), px.NewW2(1)
+	ck := px.CollidingRSAKeys()
+	w.w2[2], w.w2[3] = px.NewW2Key(ck[0]), px.NewW2Key(ck[1])
 	if keyCIndex < 0 {
 		for i := 6; i < 6+4096; i++ {
 			c := px.NewW1(i)
@@ -142,7 +153,7 @@ func (w *worldT) unknownID(typ int) byte {
 	if typ == 1 && first != last(w.w1[0].KeyID) && first != last(w.w1[1].KeyID) && first != last(w.w1[2].KeyID) {
 		return first
 	}
-	if typ == 2 && first != last(w.w2[0].KeyID) && first != last(w.w2[1].KeyID) {
+	if typ == 2 && first != last(w.w2[0].KeyID) && first != last(w.w2[1].KeyID) && first != last(w.w2[2].KeyID) {
 		return first
 	}
 	for c := 0; c < 256; c++ {
@@ -150,7 +161,7 @@ func (w *worldT) unknownID(typ int) byte {
 		if typ == 1 && b != last(w.w1[0].KeyID) && b != last(w.w1[1].KeyID) && b != last(w.w1[2].KeyID) {
 			return b
 		}
-		if typ == 2 && b != last(w.w2[0].KeyID) && b != last(w.w2[1].KeyID) {
+		if typ == 2 && b != last(w.w2[0].KeyID) && b != last(w.w2[1].KeyID) && b != last(w.w2[2].KeyID) {
 			return b
 		}
 	}
@@ -162,7 +173,7 @@ type slot struct {
 	req    tokens.TokenRequestWithDetails
 	st1    *type1.BasicPrivateTokenRequestState
 	st2    *type2.BasicPublicTokenRequestState
-	key    int // 0 = A, 1 = B
+	key    int // 0 = A, 1 = B (type 2 also 2 = D, 3 = E)
 	nonce  []byte
 	chal   []byte
 }
@@ -196,9 +207,32 @@ func (w *worldT) makeSlot(letter, pos int, lbl string) slot {
 		if letter == t2B {
 			s.key = 1
 		}
+		if letter == t2D {
+			s.key = 2
+		}
+		if letter == t2Esmall || letter == t2Ebig {
+			s.key = 3
+		}
 		st, err := w.w2[s.key].Create(s.chal, s.nonce, nil, nil)
 		if err != nil {
 			panic(err)
+		}
+		if letter == t2Esmall || letter == t2Ebig {
+			// draw nonces until the blinded message lies on the wanted side of N_D
+			nd := w.w2[2].Key.N
+			for try := 0; ; try++ {
+				below := new(big.Int).SetBytes(st.Request().BlindedReq).Cmp(nd) < 0
+				if below == (letter == t2Esmall) {
+					break
+				}
+				if try > 400 {
+					panic("no blinded message on the wanted side of N_D")
+				}
+				s.nonce = mc.Fill(seedv, fmt.Sprintf("nonce-%s-%d-try%d", lbl, pos, try), 32)
+				if st, err = w.w2[3].Create(s.chal, s.nonce, nil, nil); err != nil {
+					panic(err)
+				}
+			}
 		}
 		s.st2 = &st
 		r := st.Request()
@@ -236,6 +270,10 @@ func expectPresent(cfg []string, letter int) bool {
 		return has(cfg, "2A")
 	case t2B:
 		return has(cfg, "2B")
+	case t2D, t2Esmall:
+		return has(cfg, "2D") || has(cfg, "2E") // both issuers carry the request's truncated id and both can sign it
+	case t2Ebig:
+		return has(cfg, "2E") // issuer D fails on it (message not below its modulus): the other issuer of that id must be asked
 	}
 	return false // unknown key id, malformed element
 }
@@ -261,6 +299,10 @@ func run(c Case) (string, *mc.Viol) {
 			issuers = append(issuers, bx.Issuer2{I: w.w2[0].Issuer})
 		case "2B":
 			issuers = append(issuers, bx.Issuer2{I: w.w2[1].Issuer})
+		case "2D":
+			issuers = append(issuers, bx.Issuer2{I: w.w2[2].Issuer})
+		case "2E":
+			issuers = append(issuers, bx.Issuer2{I: w.w2[3].Issuer})
 		}
 	}
 	bi := batched.NewBasicBatchedIssuer(issuers...)
@@ -358,6 +400,27 @@ func run(c Case) (string, *mc.Viol) {
 				return v("token of a batch entry does not verify", fmt.Sprintf("position %d: %v", i, err))
 			}
 		} else {
+			// with two issuers of one truncated id the first configured one that can sign answers
+			signer := s.key
+			if s.key >= 2 {
+				for _, name := range cfg {
+					if name == "2D" && s.letter != t2Ebig {
+						signer = 2
+						break
+					}
+					if name == "2E" {
+						signer = 3
+						break
+					}
+				}
+			}
+			if signer != s.key {
+				alone, err := w.w2[signer].Issuer.Evaluate(s.st2.Request())
+				if err != nil || !bytes.Equal(alone, entries[i]) {
+					return v("type-2 entry differs from the evaluation of the same request alone by the first configured issuer of its truncated key id", fmt.Sprintf("position %d", i))
+				}
+				continue // signed by the other key of that id: the protocol cannot tell them apart, the token is not judged
+			}
 			tok, err := s.st2.FinalizeToken(entries[i])
 			if err != nil {
 				return v("present type-2 entry does not finalize under its own request", fmt.Sprintf("position %d: %v", i, err))
@@ -426,7 +489,7 @@ func main() {
 		r.Note("key alphabet has colliding truncated ids; configurations with two issuers per type are skipped")
 		r.NotExhaustive("colliding truncated key ids in the key alphabet")
 		configs = [][]string{configs[0], configs[1], configs[2], configs[3], configs[6], configs[7], configs[9]}
-		nBase, nArr = len(configs), len(configs)
+		nBase, nColl, nArr = len(configs), len(configs), len(configs)
 	}
 	n := mc.Pick(r, 3, 4)
 	var cases []Case
@@ -466,7 +529,25 @@ func main() {
 	}
 	// every arrangement of every issuer subset: one probe batch with a request for each key (and the
 	// same reversed, and each request alone) must reach exactly the configured issuers
-	for ci := nBase; ci < nArr; ci++ {
+	// two type-2 issuers whose truncated key ids coincide: every sequence of length 1..2 (3 thorough) over
+	// {request for D, request for E that D can sign too, request for E that only E can sign, unknown id, key A}
+	for ci := nColl; ci < nArr; ci++ {
+		al := []int{t2D, t2Esmall, t2Ebig, t2Unknown, t2A, t1A}
+		var rec func(cur []int)
+		rec = func(cur []int) {
+			if len(cur) > 0 {
+				cases = append(cases, Case{Config: ci, Letters: append([]int{}, cur...)})
+			}
+			if len(cur) == mc.Pick(r, 2, 3) {
+				return
+			}
+			for _, l := range al {
+				rec(append(cur, l))
+			}
+		}
+		rec(nil)
+	}
+	for ci := nBase; ci < nColl; ci++ {
 		probe := []int{t1A, t1B, t1C, t2A, t2B}
 		cases = append(cases, Case{Config: ci, Letters: probe}, Case{Config: ci, Letters: []int{t2B, t2A, t1C, t1B, t1A}})
 		if r.Thorough() {
@@ -498,10 +579,10 @@ func main() {
 		}
 	}
 	r.SetRule(fmt.Sprintf("every sequence of length 1..%d over the 9-letter request alphabet {type1,type2} x {key A, key B, unknown truncated key id, malformed blinded element} plus a type-1 key C whose truncated id equals that of the type-2 key A x every one of %d hand-picked issuer configurations (both types, one type, none, two issuers per type in both orders); every ordered arrangement of every subset of five issuers x a probe batch with one request per key; issuer objects whose key was rotated between two batches; unsupported type = configuration lacking that type. Cases are distinct tuples; non-trivial = batch with at least one request", n, nBase))
-	r.Assume("issuer configurations in which two issuers of one type share a truncated key id are excluded (the protocol cannot tell which key the client meant)",
+	r.Assume("two type-2 issuers D, E sharing a truncated key id: an entry is present iff one of them can sign the request (D cannot when the blinded message is not below its modulus); it must equal the stand-alone evaluation by the first configured issuer that can; its token is judged only when that issuer holds the request's own key",
 		"reference model: entry present iff a configured issuer of the request's type and truncated key id exists and the blinded element is well-formed",
 		"issuers are adapted to the batch Issuer interface exactly as the repository's tests do")
-	r.Set("dimensions", map[string]any{"max_batch": n, "letters": letterName, "configs": configs[:nBase], "arrangement_configs": nArr - nBase, "rotating_issuer_configs": configs[nArr:]})
+	r.Set("dimensions", map[string]any{"max_batch": n, "letters": letterName, "configs": configs[:nBase], "arrangement_configs": nColl - nBase, "colliding_type2_issuer_configs": configs[nColl:nArr], "rotating_issuer_configs": configs[nArr:]})
 	r.Par(len(cases), func(i int) {
 		if r.OutOfTime() {
 			r.NotExhaustive("time budget")
